@@ -1,6 +1,6 @@
 (* The compact JWS a signer produces, b64(header) "." b64(payload) "." b64(signature), is read
    back by the parser mirror's parse_jws with exactly these three parts. *)
-From Coq Require Import ZArith NArith String Ascii List Bool Lia.
+From Coq Require Import ZArith NArith String Ascii List Bool Sorting.Permutation Lia.
 From Sidetree Require Import Base.Sha2 Base.Base64url Json.Json Json.Parse Sidetree.JsonPatch Sidetree.Validator Sidetree.Parser.
 Import ListNotations.
 Open Scope string_scope.
@@ -70,12 +70,21 @@ Qed.
 Lemma compact_nonempty hb payload sig : hb <> "" -> compact hb payload sig <> "".
 Proof. intros H E. pose proof (b64_encode_nonempty hb H). unfold compact in E. destruct (b64_encode hb); [congruence|discriminate]. Qed.
 
+(* a header holding the algorithm alone names no member twice *)
+Lemma single_alg_dupfree h alg :
+  Permutation (keys [("alg", JStr alg)]) (keys h) -> lookup "alg" h = Some (JStr alg) -> dupfree (JObj h) = true.
+Proof.
+  intros P L. apply Permutation_length_1_inv in P.
+  destruct h as [|[k v] [|kv2 r]]; cbn in P; try discriminate. injection P as ->.
+  cbn [lookup String.eqb Ascii.eqb Bool.eqb] in L. injection L as ->. reflexivity.
+Qed.
+
 Theorem parse_jws_compact hb payload sig h :
-  parse_json hb = Some (JObj h) -> has "alg" h = true -> payload <> "" -> sig <> "" ->
+  parse_json hb = Some (JObj h) -> dupfree (JObj h) = true -> has "alg" h = true -> payload <> "" -> sig <> "" ->
   parse_jws (compact hb payload sig) =
   Some {| j_headers := h; j_payload := payload; j_signature := sig; j_parts := (b64_encode hb, b64_encode payload, b64_encode sig) |}.
 Proof.
-  intros Hh Ha Hp Hs. assert (Hne : hb <> "") by (intros ->; cbn in Hh; discriminate).
-  unfold parse_jws. rewrite (compact_not_json _ _ _ Hne), compact_parts, !b64_decode_encode, Hh, Ha. cbn [negb].
+  intros Hh Hd Ha Hp Hs. assert (Hne : hb <> "") by (intros ->; cbn in Hh; discriminate).
+  unfold parse_jws. rewrite (compact_not_json _ _ _ Hne), compact_parts, !b64_decode_encode, Hh, Hd, Ha. cbn [negb].
   apply String.eqb_neq in Hp, Hs. rewrite Hp, Hs. reflexivity.
 Qed.
